@@ -101,6 +101,8 @@ def canon(x):
     """canonical value text (harness/src/lib.rs canon) of the quoted datum x"""
     if isinstance(x, Imp):
         items, tail = list(x[:-1]), x[-1]
+        if not items:
+            return canon(tail)        # ( . tail) is the tail itself
         if isinstance(tail, Imp):
             return canon(Imp(items + list(tail)))
         if isinstance(tail, list):
@@ -852,6 +854,16 @@ def corpus_cases():
               "units": ["(define-syntax cr3 (syntax-rules () [(_ (a ... . r) ...) '(((a ...) ...) (r ...))]))",
                         "(cr3 (1 2 . 3) (4 5) 6)"],
               "expected": "(((I1 I2) (I4 I5) ()) (I3 () I6))"})
+    # repaired: an ellipsis that matched nothing in front of a dotted tail left ( . tail) (debug assertion in
+    # tryfrom_visitor.rs when the template is quoted)
+    r.append({"family": "regression", "collision": None, "coq": None,
+              "units": ["(define-syntax cr4 (syntax-rules () [(_ a ... . r) '(a ... . r)]))",
+                        "(list (cr4 . 5) (cr4 1 2 . 5) (cr4) (cr4 1))"],
+              "expected": "(I5 (I1 I2 . I5) () (I1))"})
+    r.append({"family": "regression", "collision": None, "coq": None,
+              "units": ["(define-syntax cr5 (syntax-rules () [(_ ((d ...) ... . f) e ... . a) '(((d ...) ... . f) e ... . a)]))",
+                        "(list (cr5 0) (cr5 ((1) . 2) 3 . 4))"],
+              "expected": "((I0) (((I1) . I2) I3 . I4))"})
     return r
 
 
@@ -876,15 +888,34 @@ def run(ck):
         "correspondence harness (harness/src/bin/evalsrv.rs, canonical value rendering)",
         "renderers in checks/c13.py (S-expression -> Steel source / Coq term, pattern parser mirroring parse_from_list)",
         "oracles: independent R7RS matcher/instantiator in checks/c13.py; expected values of the hygiene families "
-        "fixed by construction of each family",
+        "and of the module-graph family fixed by construction (definition-site meaning)",
+        "translator mg_enumerate in checks/c13.py (regular expressions over modules.rs, program.rs, stdlib.scm) -> "
+        "coq/gen/Gen_C13mod.v",
     ]
     ck.assumptions = [
         "vector / bytevector patterns, quoted patterns, keywords, datum->syntax, syntax-const-if and #%syntax-span are outside the model",
-        "the Coq model covers macros used in the source that defines them; macros provided by modules are covered by the "
-        "engine-vs-construction oracle only (module-qualified resolution of template free identifiers is not modelled)",
+        "the Coq model of expansion covers macros used in the source that defines them; for macros provided by modules the "
+        "model (c13/ModelMod_C13.v) covers only which names are qualified inside templates (provide / require forms, with "
+        "the shapes the code matches generated from modules.rs); that a qualified name then resolves to the module's "
+        "binding is covered by the engine-vs-construction oracle of the module-graph family only",
         "the reader rejects identifiers starting with ## (checked on the engine in every run)",
     ]
+    # generated facts about the module system (forms of provide / require, shapes the in-scope collection matches)
+    mg_facts, mg_tie = None, None
+    try:
+        mg_facts = mg_enumerate()
+        ck.translate("Gen_C13mod", mg_gen_text(mg_facts))
+    except TieBroken as e:
+        mg_tie = str(e)
     proved = ck.proof_stage(["c13"], ["c13/Properties_C13"], "c13/Pins_C13.v")
+    th1, ax1, pf1 = list(ck.cov["theorems"]), dict(ck.cov["axioms_by_theorem"]), list(ck.proof_failures)
+    proved_mod = ck.proof_stage(["c13"], ["c13/PropertiesMod_C13"], "c13/Pins_C13mod.v")
+    ck.cov["theorems"] = th1 + [t for t in ck.cov["theorems"] if t not in th1]
+    ck.cov["axioms_by_theorem"] = dict(ax1, **ck.cov["axioms_by_theorem"])
+    ck.proof_failures = pf1 + [x for x in ck.proof_failures if x not in pf1]
+    if mg_tie:
+        proved_mod = False
+        ck.proof_failures.append("generated facts of the module system (Gen_C13mod) could not be extracted: " + mg_tie)
     ck.harness_build(["evalsrv"])
     quick = ck.tier == "quick"
     rng = ck.rng
@@ -914,7 +945,7 @@ def run(ck):
         hcases.append(fam_module_macro_name(rng, idx, mroot, force))
         idx += 1
     # ---------------- predicates must not swallow cases of other families
-    selftest_predicates(ck, hcases)
+    selftest_predicates(ck, hcases + mg_selftest_descs())
     # ---------------- (E) malformed
     ecases = [gen_malformed(rng, i) for i in range(250 if quick else 5000)]
     # the reader must reject ##-identifiers (condition (iii) of the known class is enforced by the lexer)
@@ -1009,12 +1040,18 @@ def run(ck):
             ck.violation("the reader accepted an identifier starting with ##: %s -> %s (condition of the known class no longer "
                          "enforced by the lexer)" % (probe[j], got), {"case": {"units": probe[j], "impl": got}}, tag="reader")
 
-    ck.cov["distinct_nontrivial"] = len([k for k in seen if k[0] == "hyg" or not k[2]])
-    ck.cov["rule"] = ("matching: distinct (pattern shape with variables anonymised, template kind) among cases whose use "
-                      "matched; hygiene: distinct (family, collision class, binding form / variant); non-trivial = matched "
-                      "use or hygiene program")
     ck.cov["outcome_histogram"] = hist
-    if not proved and not ck.violations:
+    # ---- module graphs (macros imported from modules).  When the generated obligation about the in-scope collection
+    # no longer checks, the whole matrix is searched for the failing input.
+    nviol = len(ck.violations)
+    _, mg_seen = mg_run(ck, mg_facts, escalate=not proved_mod)
+    ck.cov["distinct_nontrivial"] = len([k for k in seen if k[0] == "hyg" or not k[2]]) + len(mg_seen)
+    ck.cov["rule"] = ("matching: distinct (pattern shape with variables anonymised, template kind) among cases whose use "
+                      "matched; hygiene: distinct (family, collision class, binding form / variant); module graphs: "
+                      "distinct (level, require form A->B, require form B->C, provide form, kind of template identifier, "
+                      "use context, unit layout, JIT, provide form of the macro); non-trivial = matched use, hygiene "
+                      "program or macro use through a module graph")
+    if not (proved and proved_mod) and not ck.violations:
         ck.unproved()
 
 
@@ -1025,6 +1062,25 @@ def replay(ck, path):
         print(json.dumps(obj, indent=1))
         return
     ck.harness_build(["evalsrv"])
+    if case.get("family") == "module_graph":
+        # the module files of the case are written under the work directory, then the units run on one engine
+        import shutil
+        root = os.path.join(ck.work, "modgraph", "replay")
+        shutil.rmtree(root, ignore_errors=True)
+        units = mg_materialize(case, root, "r")
+        res = ck.eval_cases([units], fresh=True, env=None if case.get("jit", True) else {"STEEL_JIT": "false"})[0]
+        res = [r for r in (res or []) if "out" not in r]
+        got = impl_value(res[-1] if res else None)
+        parts = split_canon_list(got)
+        if parts is not None and len(parts) == 1 and case.get("layout") == "same-unit" and got != case.get("expected"):
+            got = parts[0]
+        for name in sorted(case["files"]):
+            print("---- %s\n%s" % (name, case["files"][name]))
+        print("units:", units)
+        print("engine:", got, " expected (definition-site meaning):", case.get("expected"))
+        if got != case.get("expected"):
+            ck.failing_input("replay: engine gives %s, expected %s" % (got, case.get("expected")), case, tag="replay")
+        return
     units = case.get("units") or case.get("source")
     res = ck.eval_cases([units])[0]
     got = impl_value(res[-1] if res else None)
@@ -1077,8 +1133,18 @@ def c13_macro_defining(case, params):
 def c13_module_macro_name(case, params):
     """the template of a macro provided by a module uses another macro of that module and the requiring file
     defines a macro with the same name"""
+    if case.get("family") == "module_graph":
+        # the same lookup, seen from the module-graph family: the requiring file binds the spelling of that macro
+        # as a variable after the require (a later top-level definition, or a local binding around the use)
+        return (case.get("ident_kind") in params.get("macro_kinds", ["private-macro", "exported-macro"])
+                and case.get("context") in params.get("contexts", list(MG_BINDING_CONTEXTS)))
     return (case.get("family") == "module_macro_name" and case.get("inner") is not None
             and case.get("inner") == case.get("user_macro"))
+
+
+def c13_module_imported_macro(case, params):
+    """the template of a macro provided by module A uses a macro that A itself imported from another module"""
+    return case.get("family") == "module_graph" and case.get("ident_kind") == "imported-macro"
 
 
 def c13_multi_ellipsis(case, params):
@@ -1093,7 +1159,8 @@ PRED_HOME = {
     "c13_unrenamed_binder": {"binder_form"},
     "c13_renamer_scope_insensitive": {"scope_insensitive"},
     "c13_macro_defining": {"macro_defining"},
-    "c13_module_macro_name": {"module_macro_name"},
+    "c13_module_macro_name": {"module_macro_name", "module_graph"},
+    "c13_module_imported_macro": {"module_graph"},
     "c13_multi_ellipsis": {"match"},
 }
 
@@ -1140,3 +1207,745 @@ def selftest_predicates(ck, hcases):
     ck.cov["predicate_selftest"] = {"assertions": n, "families": sorted(f for f in fams_seen if f), "failures": len(bad)}
     for b in bad[:5]:
         ck.violation("known-class predicate self-test failed: " + b, {"selftest": b}, no_input=True, tag="selftest")
+
+
+# ============================================================================= module graphs (family "module_graph")
+# Engine-vs-construction oracle for macros imported from modules.  Two- and three-level module graphs are written to
+# disk; B (and C) provide procedures / values through every provide-spec form the module system accepts, A requires B
+# through every require-spec form and exports syntax-rules macros whose templates mention, as free identifiers,
+# (a) imports from B, (b) helpers of A, (c) other macros of A, (d) a builtin, (e) imported values.  The user program
+# requires only A and uses the macros in contexts that bind the same spellings.  The expected value is the
+# definition-site meaning, fixed by construction.  The forms are enumerated from modules.rs on every run
+# (mg_enumerate); the generated facts go to coq/gen/Gen_C13mod.v and carry the obligation "every provide form the
+# provide expansion accepts is handled by the collection of in-scope names" (coq/c13/PropertiesMod_C13.v).
+MG_MODULES = "crates/steel-core/src/compiler/modules.rs"
+MG_PROGRAM = "crates/steel-core/src/compiler/program.rs"
+MG_STDLIB = "crates/steel-core/src/scheme/stdlib.scm"
+MG_ARG = "7"
+
+
+def strip_rust_comments(src):
+    out = []
+    i, n = 0, len(src)
+    while i < n:
+        c = src[i]
+        if c == '"':
+            j = i + 1
+            while j < n and src[j] != '"':
+                j += 2 if src[j] == "\\" else 1
+            out.append(src[i:j + 1])
+            i = j + 1
+        elif src.startswith("//", i):
+            j = src.find("\n", i)
+            i = n if j < 0 else j
+        elif src.startswith("/*", i):
+            j = src.find("*/", i + 2)
+            i = n if j < 0 else j + 2
+        else:
+            out.append(c)
+            i += 1
+    return "".join(out)
+
+
+def rust_block(src, start):
+    """text of the brace block that opens at the first `{` at or after `start` (string literals skipped)"""
+    i = src.find("{", start)
+    if i < 0:
+        raise TieBroken("no block after offset %d" % start)
+    depth, j, n = 0, i, len(src)
+    while j < n:
+        c = src[j]
+        if c == '"':
+            j += 1
+            while j < n and src[j] != '"':
+                j += 2 if src[j] == "\\" else 1
+        elif c == "'" and j + 2 < n and (src[j + 2] == "'" or (src[j + 1] == "\\" and src[j + 3:j + 4] == "'")):
+            j += 3 if src[j + 2] == "'" else 4      # char literal such as '{' or '\n'
+            continue
+        elif c == "{":
+            depth += 1
+        elif c == "}":
+            depth -= 1
+            if depth == 0:
+                return src[i:j + 1]
+        j += 1
+    raise TieBroken("unbalanced block at offset %d" % start)
+
+
+def rust_fn(src, name):
+    m = re.search(r"\bfn\s+%s\s*(<[^>]*>)?\s*\(" % re.escape(name), src)
+    if not m:
+        raise TieBroken("fn %s not found in %s" % (name, MG_MODULES))
+    return rust_block(src, m.end())
+
+
+# what the generator can produce, keyed by the head the code matches on
+MG_PROVIDE_GEN = {"<identifier>", "%require-ident-spec", "for-syntax"}
+MG_PROVIDE_SURFACE_GEN = {"contract/out"}
+MG_REQUIRE_GEN = {"<string>", "only-in", "prefix-in", "for-syntax"}
+MG_ONLY_IN_ITEM_GEN = {"<identifier>", "<rename-pair>"}
+
+
+def mg_enumerate():
+    """provide / require spec forms read off the match arms of modules.rs, and which of them the collection of
+    in-scope names (find_in_scope_macros and RequireObject::as_identifiers) handles"""
+    mod = strip_rust_comments(common.repo_file(MG_MODULES))
+    prog = common.repo_file(MG_PROGRAM)
+    syms = dict(re.findall(r"\b([A-Z][A-Z0-9_]*)\s*=>\s*\"([^\"]+)\"", prog))
+
+    def heads(body, what):
+        hs = []
+        for nm in re.findall(r"\bx\s+if\s+\*?x\s*==\s*\*([A-Z_0-9]+)", body):
+            if nm not in syms:
+                raise TieBroken("symbol %s matched in %s is not in the table of program.rs" % (nm, what))
+            if syms[nm] not in hs:
+                hs.append(syms[nm])
+        return hs
+
+    f = {}
+    # --- provide: forms that survive filter_out_for_syntax_provides / are turned into definitions
+    fo = rust_fn(mod, "filter_out_for_syntax_provides")
+    syntax_heads, passed = [], []
+    for m in re.finditer(r"\bx\s+if\s+x\s*==\s*\*([A-Z_0-9]+)\s*=>", fo):
+        arm = rust_block(fo, m.end())
+        nm = syms.get(m.group(1))
+        if nm is None:
+            raise TieBroken("symbol %s of filter_out_for_syntax_provides not in program.rs" % m.group(1))
+        (syntax_heads if "provides_for_syntax.push" in arm else passed).append(nm)
+    if not syntax_heads:
+        raise TieBroken("filter_out_for_syntax_provides: no arm collects provides_for_syntax")
+    f["provide_syntax_heads"] = syntax_heads
+    ttl = rust_fn(mod, "to_top_level_module")
+    cm = rust_fn(mod, "compile_main")
+    f["provide_value_heads"] = heads(ttl, "to_top_level_module")
+    f["provide_value_heads_main"] = [h for h in heads(cm, "compile_main")]
+    f["provide_atom_accepted"] = "ExprKind::Atom(_) =>" in ttl
+    f["provide_atom_accepted_main"] = "ExprKind::Atom(_) =>" in cm
+    if not f["provide_value_heads"] and not f["provide_atom_accepted"]:
+        raise TieBroken("to_top_level_module: provide arms not found")
+    # surface macros of the prelude that expand into an accepted list head
+    std = common.repo_file(MG_STDLIB)
+    surf = []
+    for h in f["provide_value_heads"]:
+        for nm in re.findall(r"\[\(([^\s()\[\]]+)[^\[\]]*?\)\s*\(%s\s" % re.escape(h), std):
+            if nm not in surf:
+                surf.append(nm)
+    f["provide_surface_macros"] = surf
+    # --- the collection of in-scope names: find_in_scope_macros, loop over the provides of whole-module requires
+    fis = rust_fn(mod, "find_in_scope_macros")
+    m = re.search(r"for\s+importing_module\s+in\s+modules_to_check\s*", fis)
+    if not m:
+        raise TieBroken("find_in_scope_macros: loop over modules_to_check not found")
+    loop = rust_block(fis, m.end())
+    if not re.search(r"globals\s*\.\s*(insert|extend)\s*\(", loop):
+        raise TieBroken("find_in_scope_macros: the loop over modules_to_check no longer adds to `globals`")
+    f["in_scope_collects_atom"] = bool(re.search(r"\.\s*atom_identifier\s*\(\s*\)", loop))
+    f["in_scope_collects_list_second"] = bool(re.search(r"\.\s*second_ident\s*\(\s*\)", loop))
+    # ... and the same names under the prefix of a whole-module (prefix-in pfx "m") require
+    m = re.search(r"for\s+\(\s*prefixed_module\s*,\s*prefix\s*\)\s+in\s+prefixed_modules\s*", fis)
+    f["in_scope_prefixed_collects_atom"] = f["in_scope_prefixed_collects_list_second"] = False
+    if m:
+        ploop = rust_block(fis, m.end())
+        if re.search(r"globals\s*\.\s*(insert|extend)\s*\(\s*\(?\s*prefix\b", ploop):
+            f["in_scope_prefixed_collects_atom"] = bool(re.search(r"\.\s*atom_identifier\s*\(\s*\)", ploop))
+            f["in_scope_prefixed_collects_list_second"] = bool(re.search(r"\.\s*second_ident\s*\(\s*\)", ploop))
+    # to_top_level_module, spec arm: the name registered as a global of the requiring module is the one it defines
+    m = re.search(r"x\s+if\s+x\s*==\s*\*REQUIRE_IDENT_SPEC\s*=>", ttl)
+    if not m:
+        raise TieBroken("to_top_level_module: %require-ident-spec arm not found")
+    arm = rust_block(ttl, m.end())
+    md = re.search(r"Define::new\s*\(\s*([a-z_]+)\s*,", arm)
+    mg = re.search(r"globals\s*\.\s*insert\s*\(\s*\*\s*([a-z_]+)\s*\.", arm)
+    if not md or not mg:
+        raise TieBroken("to_top_level_module: definition / registration of a spec export not found")
+    f["spec_registers_bound_name"] = md.group(1) == mg.group(1)
+    # same shape in compile_module (macros of the requiring module shadowed by imported names)
+    cmod = rust_fn(mod, "compile_module")
+    m = re.search(r"if\s+require_object\s*\.\s*idents_to_import\s*\.\s*is_empty\s*\(\s*\)\s*", cmod)
+    if m:
+        blk = rust_block(cmod, m.end())
+        f["shadow_collects_atom"] = bool(re.search(r"\.\s*atom_identifier\s*\(\s*\)", blk)) and "macro_map.remove" in blk
+        f["shadow_collects_list_second"] = bool(re.search(r"\.\s*second_ident\s*\(\s*\)", blk)) and "macro_map.remove" in blk
+    else:
+        raise TieBroken("compile_module: removal of shadowed macros not found")
+    # --- require
+    pr = rust_fn(mod, "parse_require_object_inner")
+    rh = []
+    for nm in re.findall(r"Some\s*\(\s*x\s*\)\s+if\s+\*x\s*==\s*\*([A-Z_0-9]+)", pr):
+        if nm not in syms:
+            raise TieBroken("symbol %s of parse_require_object_inner not in program.rs" % nm)
+        rh.append(syms[nm])
+    if "TokenType::StringLiteral" not in pr or not rh:
+        raise TieBroken("parse_require_object_inner: arms not found")
+    f["require_heads"] = ["<string>"] + rh
+    m = re.search(r"Some\s*\(\s*x\s*\)\s+if\s+\*x\s*==\s*\*ONLY_IN\s*=>", pr)
+    items = []
+    if m:
+        blk = rust_block(pr, m.end())
+        m2 = re.search(r"match\s+remaining\s*", blk)
+        if m2:
+            arms = rust_block(blk, m2.end())
+            if "ExprKind::Atom(_)" in arms:
+                items.append("<identifier>")
+            if "ExprKind::List(" in arms and "MaybeRenamed::Renamed" in arms:
+                items.append("<rename-pair>")
+    f["only_in_items"] = items
+    # RequireObject::as_identifiers: which explicitly imported names it yields
+    asid = rust_fn(mod, "as_identifiers")
+    f["req_ids"] = mg_as_identifiers_shape(asid)
+    return f
+
+
+def mg_as_identifiers_shape(body):
+    """which of the names bound by an explicit import list RequireObject::as_identifiers yields:
+    normal: the arm for `name` binds the identifier; renamed: the arm for `(from to)` binds the NEW name;
+    prefix_optional: some `out.push` pushes a name that does not involve the prefix (requires without a prefix)"""
+    b = re.sub(r"\s+", " ", body)
+    pushes = []
+    for m in re.finditer(r"out\s*\.\s*push\s*\(", b):
+        depth, j = 1, m.end()
+        while j < len(b) and depth:
+            depth += {"(": 1, ")": -1}.get(b[j], 0)
+            j += 1
+        pushes.append(b[m.end():j - 1])
+    if not pushes:
+        return {"normal": False, "renamed": False, "prefix_optional": False}
+    normal = bool(re.search(r"MaybeRenamed::Normal\(\s*[a-z]\w*\s*\)", b))
+    renamed = bool(re.search(r"MaybeRenamed::Renamed\(\s*_\w*\s*,\s*[a-z]\w*\s*\)", b))
+    prefix_optional = any("prefix" not in a for a in pushes)
+    return {"normal": normal, "renamed": renamed, "prefix_optional": prefix_optional}
+
+
+def mg_gen_text(f):
+    def cl(xs):
+        return "[" + "; ".join(coq_str(x) for x in xs) + "]"
+
+    def cb(x):
+        return "true" if x else "false"
+    return "\n".join([
+        "(* GENERATED by checks/c13.py (mg_enumerate) on every run from %s, program.rs and scheme/stdlib.scm — do not edit. *)" % MG_MODULES,
+        "From Coq Require Import String List.", "Import ListNotations.", "Open Scope string_scope.",
+        "(* filter_out_for_syntax_provides: list heads collected as exported macros *)",
+        "Definition provide_syntax_heads : list string := %s." % cl(f["provide_syntax_heads"]),
+        "(* to_top_level_module / compile_main: list heads of provide specs that are turned into a definition in the requiring module; any other head stops with TypeMismatch *)",
+        "Definition provide_value_heads : list string := %s." % cl(f["provide_value_heads"]),
+        "Definition provide_value_heads_main : list string := %s." % cl(f["provide_value_heads_main"]),
+        "Definition provide_atom_accepted : bool := %s." % cb(f["provide_atom_accepted"]),
+        "Definition provide_atom_accepted_main : bool := %s." % cb(f["provide_atom_accepted_main"]),
+        "(* prelude macros (scheme/stdlib.scm) that expand into an accepted list head *)",
+        "Definition provide_surface_macros : list string := %s." % cl(f["provide_surface_macros"]),
+        "(* find_in_scope_macros, `for importing_module in modules_to_check`: shapes of provide specs whose name is added to the in-scope names *)",
+        "Definition in_scope_collects_atom : bool := %s." % cb(f["in_scope_collects_atom"]),
+        "Definition in_scope_collects_list_second : bool := %s." % cb(f["in_scope_collects_list_second"]),
+        "(* find_in_scope_macros, `for (prefixed_module, prefix) in prefixed_modules`: the same under the prefix of a whole-module prefix-in require (false: no such collection) *)",
+        "Definition in_scope_prefixed_collects_atom : bool := %s." % cb(f["in_scope_prefixed_collects_atom"]),
+        "Definition in_scope_prefixed_collects_list_second : bool := %s." % cb(f["in_scope_prefixed_collects_list_second"]),
+        "(* to_top_level_module, %require-ident-spec arm: `globals.insert` registers the identifier that `Define::new` defines *)",
+        "Definition spec_registers_bound_name : bool := %s." % cb(f["spec_registers_bound_name"]),
+        "(* compile_module: the same two shapes when macros of the requiring module are shadowed by imported names *)",
+        "Definition shadow_collects_atom : bool := %s." % cb(f["shadow_collects_atom"]),
+        "Definition shadow_collects_list_second : bool := %s." % cb(f["shadow_collects_list_second"]),
+        "(* parse_require_object_inner *)",
+        "Definition require_heads : list string := %s." % cl(f["require_heads"]),
+        "Definition only_in_items : list string := %s." % cl(f["only_in_items"]),
+        "(* RequireObject::as_identifiers: explicitly imported names it yields *)",
+        "Definition req_ids_normal : bool := %s." % cb(f["req_ids"]["normal"]),
+        "Definition req_ids_renamed : bool := %s." % cb(f["req_ids"]["renamed"]),
+        "Definition req_ids_without_prefix : bool := %s." % cb(f["req_ids"]["prefix_optional"]),
+        ""])
+
+
+def mg_uncovered(f):
+    unc = []
+    unc += ["provide:" + h for h in f["provide_value_heads"] + f["provide_syntax_heads"] if h not in MG_PROVIDE_GEN]
+    unc += ["provide-surface:" + h for h in f["provide_surface_macros"] if h not in MG_PROVIDE_SURFACE_GEN]
+    unc += ["require:" + h for h in f["require_heads"] if h not in MG_REQUIRE_GEN]
+    unc += ["only-in-item:" + h for h in f["only_in_items"] if h not in MG_ONLY_IN_ITEM_GEN]
+    return unc
+
+
+# ----------------------------------------------------------------------------- graph generator
+MG_PROVIDE_FORMS = ["atom", "contract/out", "ident-spec", "ident-spec-rename", "local-macro-spec", "atom-2nd-provide",
+                    "atom-begin-provide"]
+MG_REQUIRE_FORMS = ["plain", "for-syntax", "only-in", "only-in-rename", "prefix-in", "prefix-only", "only-prefix",
+                    "prefix-only-rename"]
+MG_CONTEXTS = ["plain", "earlier-global", "later-global", "local-let", "local-lambda", "local-define", "also-lib",
+               "lib-first"]
+MG_LAYOUTS = ["split", "same-unit"]
+
+
+def mg_items(tag, nvals):
+    """exports of a library module: one procedure per provide form, values through the forms that accept them"""
+    items = []
+    for pf in MG_PROVIDE_FORMS:
+        ext = "mg%s-p-%s" % (tag, re.sub(r"[^a-z0-9]+", "-", pf))
+        items.append({"kind": "proc", "pf": pf, "ext": ext,
+                      "int": ext + "-internal" if pf == "ident-spec-rename" else ext,
+                      "meaning": "('\"%s\" I%s)" % (ext.upper(), MG_ARG)})
+    for k, pf in enumerate(["atom", "ident-spec", "ident-spec-rename"]):
+        ext = "mg%s-v-%s" % (tag, re.sub(r"[^a-z0-9]+", "-", pf))
+        items.append({"kind": "value", "pf": pf, "ext": ext,
+                      "int": ext + "-internal" if pf == "ident-spec-rename" else ext,
+                      "val": nvals + k, "meaning": "(I%d I%s)" % (nvals + k, MG_ARG)})
+    return items
+
+
+def mg_provide_text(items, tag):
+    """(provide ...) forms of a library module for its own items"""
+    main, second, begin = [], [], []
+    for it in items:
+        pf, e, i = it["pf"], it["ext"], it["int"]
+        if pf == "atom":
+            main.append(e)
+        elif pf == "contract/out":
+            main.append("(contract/out %s (->/c number? list?))" % e)
+        elif pf == "ident-spec":
+            main.append("(%%require-ident-spec %s %s)" % (e, e))
+        elif pf == "ident-spec-rename":
+            main.append("(%%require-ident-spec %s %s)" % (e, i))
+        elif pf == "local-macro-spec":
+            main.append("(mg%s/out %s)" % (tag, e))
+        elif pf == "atom-2nd-provide":
+            second.append(e)
+        elif pf == "atom-begin-provide":
+            begin.append(e)
+    out = ["(define-syntax mg%s/out (syntax-rules () [(_ n) (%%require-ident-spec n n)]))" % tag,
+           "(provide %s)" % "\n         ".join(main)]
+    if second:
+        out.append("(provide %s)" % " ".join(second))
+    if begin:
+        out.append("(begin (provide %s))" % " ".join(begin))
+    return out
+
+
+def mg_define_text(items):
+    out = []
+    for it in items:
+        if it["kind"] == "proc":
+            out.append("(define (%s x) (list '%s x))" % (it["int"], it["ext"].upper()))
+        else:
+            out.append("(define %s %d)" % (it["int"], it["val"]))
+    return out
+
+
+def mg_require_text(rf, path, names, pfx, ren):
+    """require spec of form rf for the module file `path`; returns (text, local-name function)"""
+    only = " ".join(names)
+    pairs = " ".join("(%s %s%s)" % (n, ren, n) for n in names)
+    if rf == "plain":
+        return '(require "%s")' % path, (lambda n: n)
+    if rf == "for-syntax":
+        return '(require (for-syntax "%s"))' % path, (lambda n: n)
+    if rf == "only-in":
+        return '(require (only-in "%s" %s))' % (path, only), (lambda n: n)
+    if rf == "only-in-rename":
+        return '(require (only-in "%s" %s))' % (path, pairs), (lambda n: ren + n)
+    if rf == "prefix-in":
+        return '(require (prefix-in %s "%s"))' % (pfx, path), (lambda n: pfx + n)
+    if rf == "prefix-only":
+        return '(require (prefix-in %s (only-in "%s" %s)))' % (pfx, path, only), (lambda n: pfx + n)
+    if rf == "only-prefix":
+        return '(require (only-in (prefix-in %s "%s") %s))' % (pfx, path, only), (lambda n: pfx + n)
+    if rf == "prefix-only-rename":
+        return '(require (prefix-in %s (only-in "%s" %s)))' % (pfx, path, pairs), (lambda n: pfx + ren + n)
+    raise ValueError(rf)
+
+
+def mg_graph(level, rf, rf2="plain", macro_provide="for-syntax", only=None):
+    """files of a module graph and the macros A exports.
+    level 2: main -> A -> B.   level 3: main -> A -> B -> C, B re-exports C's names and exports a macro over them."""
+    files = {}
+    macros = []      # {"name", "ident_kind", "provide_form", "template", "spellings", "expected", "value"}
+    b_items = mg_items("b", 1000)
+    b_body = []
+    b_prov = mg_provide_text(b_items, "b")
+    reexp = []
+    if level == 3:
+        c_items = mg_items("c", 3000)
+        files["mgc.scm"] = "\n".join(mg_provide_text(c_items, "c") + mg_define_text(c_items)) + "\n"
+        rq, loc2 = mg_require_text(rf2, "mgc.scm", [it["ext"] for it in c_items], "q.", "s.")
+        b_body.append(rq)
+        # B re-exports what it imported from C: plainly and through a contract; and a macro over an import
+        for it in c_items:
+            ln = loc2(it["ext"])
+            if it["kind"] == "proc" and it["pf"] in ("atom", "contract/out"):
+                reexp.append({"kind": "proc", "pf": "reexport-atom(" + it["pf"] + ")", "ext": ln, "int": ln,
+                              "meaning": it["meaning"], "origin": it["ext"]})
+            elif it["kind"] == "proc" and it["pf"] in ("ident-spec", "atom-2nd-provide"):
+                reexp.append({"kind": "proc", "pf": "reexport-contract(" + it["pf"] + ")", "ext": ln, "int": ln,
+                              "meaning": it["meaning"], "origin": it["ext"]})
+            elif it["kind"] == "value" and it["pf"] == "atom":
+                reexp.append({"kind": "value", "pf": "reexport-atom(atom)", "ext": ln, "int": ln,
+                              "meaning": it["meaning"], "origin": it["ext"]})
+        re_atoms = [r["ext"] for r in reexp if r["pf"].startswith("reexport-atom")]
+        re_con = [r["ext"] for r in reexp if r["pf"].startswith("reexport-contract")]
+        b_prov.append("(provide %s %s)" % (" ".join(re_atoms),
+                                           " ".join("(contract/out %s (->/c number? list?))" % n for n in re_con)))
+        cm = [it for it in c_items if it["pf"] == "contract/out"][0]
+        b_prov.append("(provide (for-syntax mgb-mac))")
+        b_body.append("(define (mgb-mac-helper x) (list 'MGB-MAC-HELPER x))")
+        b_body.append("(define-syntax mgb-mac (syntax-rules () [(_ x) (list (mgb-mac-helper x) (%s x))]))" % loc2(cm["ext"]))
+        mgb_mac_meaning = "(('\"MGB-MAC-HELPER\" I%s) %s)" % (MG_ARG, cm["meaning"])
+    files["mgb.scm"] = "\n".join(b_prov + b_body + mg_define_text(b_items)) + "\n"
+    exports = b_items + reexp
+    rq, loc = mg_require_text(rf, "mgb.scm", [it["ext"] for it in exports], "p.", "r.")
+    a = [rq]
+    for it in exports:
+        ln = loc(it["ext"])
+        nm = "mga-use-" + re.sub(r"[^a-z0-9-]+", "-", it["ext"])
+        tmpl = "(%s x)" % ln if it["kind"] == "proc" else "(list %s x)" % ln
+        sp = sorted({ln, it["ext"], it["int"], it.get("origin", it["ext"])})
+        macros.append({"name": nm, "ident_kind": "imported-" + it["kind"], "provide_form": it["pf"], "template": tmpl,
+                       "spellings": sp, "expected": it["meaning"], "value": it["kind"] == "value"})
+    own = [
+        ("mga-use-helper", "private-helper", "(mga-helper x)", ["mga-helper"], "('\"MGA-HELPER\" I%s)" % MG_ARG, False),
+        ("mga-use-phelper", "provided-helper", "(mga-phelper x)", ["mga-phelper"], "('\"MGA-PHELPER\" I%s)" % MG_ARG, False),
+        ("mga-use-pvalue", "private-value", "(list mga-pvalue x)", ["mga-pvalue"], "(I2001 I%s)" % MG_ARG, True),
+        ("mga-use-inner", "private-macro", "(mga-inner x)", ["mga-inner"], "('\"MGA-INNER\" I%s)" % MG_ARG, False),
+        ("mga-use-xinner", "exported-macro", "(mga-xinner x)", ["mga-xinner"], "('\"MGA-XINNER\" I%s)" % MG_ARG, False),
+        ("mga-use-builtin", "builtin", "(number->string x)", ["number->string"], '"%s"' % MG_ARG, False),
+    ]
+    if level == 3:
+        own.append(("mga-use-libmac", "imported-macro", "(mgb-mac x)", ["mgb-mac", "mgb-mac-helper"], mgb_mac_meaning, False))
+    for nm, kind, tmpl, sp, exp, val in own:
+        macros.append({"name": nm, "ident_kind": kind, "provide_form": None, "template": tmpl, "spellings": sp,
+                       "expected": exp, "value": val})
+    if only is not None:
+        macros = [m for m in macros if m["name"] in only]
+    names = [m["name"] for m in macros] + ["mga-xinner"]
+    if macro_provide == "for-syntax":
+        a.append("(provide %s mga-phelper)" % " ".join("(for-syntax %s)" % n for n in names))
+    else:
+        a.append("(provide %s mga-phelper)" % " ".join(names))
+    a += ["(define (mga-helper x) (list 'MGA-HELPER x))", "(define (mga-phelper x) (list 'MGA-PHELPER x))",
+          "(define mga-pvalue 2001)",
+          "(define-syntax mga-inner (syntax-rules () [(_ x) (list 'MGA-INNER x)]))",
+          "(define-syntax mga-xinner (syntax-rules () [(_ x) (list 'MGA-XINNER x)]))"]
+    for m in macros:
+        a.append("(define-syntax %s (syntax-rules () [(_ x) %s]))" % (m["name"], m["template"]))
+    files["mga.scm"] = "\n".join(a) + "\n"
+    return files, macros
+
+
+MG_MACRO_KINDS = ("private-macro", "exported-macro", "imported-macro")
+MG_BINDING_CONTEXTS = ("local-let", "local-lambda", "local-define", "later-global")
+
+
+def mg_collision(ident_kind, context):
+    """known class a use falls in, by construction of the generated program"""
+    if ident_kind == "imported-macro":
+        return "module_imported_macro"
+    if ident_kind in ("private-macro", "exported-macro") and context in MG_BINDING_CONTEXTS:
+        return "module_macro_name"
+    return None
+
+
+def mg_user_binding(sp, value, how):
+    if how == "global":
+        return "(define %s 'user)" % sp if value else "(define (%s . args) 'user)" % sp
+    return "'user" if value else "(lambda args 'user)"
+
+
+def mg_use(m, context):
+    call = "(%s %s)" % (m["name"], MG_ARG)
+    sps = m["spellings"]
+    if context == "local-let":
+        return "(let (%s) %s)" % (" ".join("[%s %s]" % (s, mg_user_binding(s, m["value"], "local")) for s in sps), call)
+    if context == "local-lambda":
+        return "((lambda (%s) %s) %s)" % (" ".join(sps), call,
+                                          " ".join(mg_user_binding(s, m["value"], "local") for s in sps))
+    if context == "local-define":
+        return "(let () %s %s)" % (" ".join(mg_user_binding(s, m["value"], "global") for s in sps), call)
+    return call
+
+
+def mg_case(level, rf, context, layout, jit, rf2="plain", macro_provide="for-syntax", only=None):
+    files, macros = mg_graph(level, rf, rf2, macro_provide, only)
+    userdefs = []
+    for m in macros:
+        for s in m["spellings"]:
+            d = mg_user_binding(s, m["value"], "global")
+            if d not in userdefs:
+                userdefs.append(d)
+    req = '(require "@ROOT@/mga.scm")'
+    if context == "also-lib":
+        req += '\n(require "@ROOT@/mgb.scm")'
+    elif context == "lib-first":
+        req = '(require "@ROOT@/mgb.scm")\n' + req
+    uses = [{"macro": m["name"], "ident_kind": m["ident_kind"], "provide_form": m["provide_form"],
+             "template": m["template"], "src": mg_use(m, context), "expected": m["expected"],
+             "spellings": m["spellings"]} for m in macros]
+    pre = ["\n".join(userdefs)] if context == "earlier-global" else []
+    post = ["\n".join(userdefs)] if context == "later-global" else []
+    if layout == "split":
+        units = pre + [req] + post + [u["src"] for u in uses]
+        slots = [[len(pre) + 1 + len(post) + k, None] for k in range(len(uses))]
+        setup = len(pre) + 1 + len(post)
+    else:
+        # the require, the user's later definitions and the uses are one evaluation unit; uses whose template
+        # identifier is a macro are expanded in units of their own after it (an expansion error of one of them
+        # would otherwise hide the outcome of every other use of the unit)
+        together = [k for k, u in enumerate(uses) if u["ident_kind"] not in MG_MACRO_KINDS]
+        alone = [k for k, u in enumerate(uses) if u["ident_kind"] in MG_MACRO_KINDS]
+        if len(uses) == 1:
+            together, alone = [0], []
+        body = [req] + post
+        if together:
+            body.append("(list %s)" % "\n      ".join(uses[k]["src"] for k in together))
+        units = pre + ["\n".join(body)] + [uses[k]["src"] for k in alone]
+        slots = [None] * len(uses)
+        for j, k in enumerate(together):
+            slots[k] = [len(pre), j]
+        for j, k in enumerate(alone):
+            slots[k] = [len(pre) + 1 + j, None]
+        setup = len(pre)
+    return {"family": "module_graph", "level": level, "require_form": rf, "require_form2": rf2 if level == 3 else None,
+            "macro_provide": macro_provide, "context": context, "layout": layout, "jit": jit, "files": files,
+            "units": units, "uses": uses, "slots": slots, "setup_units": setup}
+
+
+def mg_single(c, u):
+    """the program of case c reduced to one macro use (what is reported and replayed)"""
+    s = mg_case(c["level"], c["require_form"], c["context"], c["layout"], c["jit"], c.get("require_form2") or "plain",
+                c["macro_provide"], only=[u["macro"]])
+    return s
+
+
+def mg_materialize(c, root, tag):
+    d = os.path.join(root, tag)
+    os.makedirs(d, exist_ok=True)
+    for name, text in c["files"].items():
+        with open(os.path.join(d, name), "w") as f:
+            f.write(text)
+    return [u.replace("@ROOT@", d) for u in c["units"]]
+
+
+def split_canon_list(text):
+    """top-level elements of a canonical list value"""
+    if not (text.startswith("(") and text.endswith(")")):
+        return None
+    out, depth, cur, instr = [], 0, "", False
+    for ch in text[1:-1]:
+        if ch == '"':
+            instr = not instr
+        if not instr and ch == "(":
+            depth += 1
+        if not instr and ch == ")":
+            depth -= 1
+        if not instr and ch == " " and depth == 0:
+            if cur:
+                out.append(cur)
+            cur = ""
+        else:
+            cur += ch
+    if cur:
+        out.append(cur)
+    return out
+
+
+def mg_observe(c, res):
+    """per use: the engine's observable.  A failing user-definition / require unit is reported on every use."""
+    n = len(c["uses"])
+    if res is None:
+        return ["MISSING"] * n
+    res = [r for r in res if "out" not in r]
+    for r in res[:c["setup_units"]]:
+        if "ok" not in r:
+            return ["SETUP-" + impl_value(r)] * n
+    outs = []
+    for (ui, pos) in c["slots"]:
+        if ui >= len(res):
+            outs.append("MISSING")
+            continue
+        v = impl_value(res[ui])
+        if pos is None:
+            outs.append(v)
+            continue
+        parts = split_canon_list(v) if "ok" in res[ui] else None
+        together = len([1 for sl in c["slots"] if sl[0] == ui and sl[1] is not None])
+        if parts is None or len(parts) != together:
+            outs.append(v if n == 1 else "UNIT-" + v)
+        else:
+            outs.append(parts[pos])
+    return outs
+
+
+def mg_desc(c, u, got):
+    s = mg_single(c, u)
+    d = {k: v for k, v in s.items() if k not in ("uses", "slots", "setup_units")}
+    d["collision"] = mg_collision(u["ident_kind"], c["context"])
+    d.update({"macro": u["macro"], "ident_kind": u["ident_kind"], "provide_form": u["provide_form"],
+              "template": u["template"], "use": u["src"], "spellings": u["spellings"], "expected": u["expected"],
+              "impl": got})
+    return d
+
+
+def mg_selftest_descs():
+    """one description per (kind of template identifier, context) for the self-test of the known-class predicates"""
+    out = []
+    for ctx in MG_CONTEXTS:
+        c = mg_case(3, "plain", ctx, "split", True)
+        seen = set()
+        for u in c["uses"]:
+            if u["ident_kind"] not in seen:
+                seen.add(u["ident_kind"])
+                d = {k: c[k] for k in ("family", "level", "require_form", "context", "layout", "jit")}
+                d.update({"ident_kind": u["ident_kind"], "provide_form": u["provide_form"], "units": [u["src"]],
+                          "collision": mg_collision(u["ident_kind"], ctx), "coq": None})
+                out.append(d)
+    return out
+
+
+def mg_matrix(levels=(2, 3), jits=(True, False)):
+    out = []
+    for level in levels:
+        for rf in MG_REQUIRE_FORMS:
+            for ctx in MG_CONTEXTS:
+                for layout in MG_LAYOUTS:
+                    for jit in jits:
+                        out.append((level, rf, ctx, layout, jit))
+    return out
+
+
+MG_CORPUS = [  # the basic combinations, always run (also written to corpus/c13/module_graph_*.json)
+    (2, "plain", "earlier-global", "same-unit", True), (2, "plain", "earlier-global", "split", True),
+    (2, "plain", "plain", "split", True), (2, "plain", "local-let", "same-unit", True),
+    (2, "plain", "local-lambda", "split", False), (2, "plain", "local-define", "split", True),
+    (2, "plain", "also-lib", "split", True), (2, "plain", "later-global", "split", True),
+    (2, "only-in", "earlier-global", "split", True), (2, "prefix-in", "earlier-global", "split", True),
+    (2, "prefix-only", "plain", "split", True), (2, "only-in-rename", "plain", "split", True),
+    (3, "plain", "earlier-global", "split", True), (3, "plain", "local-let", "same-unit", False),
+]
+
+
+def mg_corpus_dir():
+    return os.path.join(common.ROOT, "corpus", "c13")
+
+
+def mg_write_corpus():
+    """(maintenance) regenerate corpus/c13/module_graph_*.json from MG_CORPUS"""
+    os.makedirs(mg_corpus_dir(), exist_ok=True)
+    for k, (level, rf, ctx, layout, jit) in enumerate(MG_CORPUS):
+        c = mg_case(level, rf, ctx, layout, jit)
+        name = "module_graph_%02d_l%d_%s_%s_%s_%s.json" % (k, level, rf, ctx, layout, "jit" if jit else "nojit")
+        with open(os.path.join(mg_corpus_dir(), name), "w") as f:
+            json.dump(c, f, indent=1, sort_keys=True)
+
+
+def mg_load_corpus():
+    import glob
+    out = []
+    for p in sorted(glob.glob(os.path.join(mg_corpus_dir(), "module_graph_*.json"))):
+        c = json.load(open(p))
+        c["corpus"] = os.path.basename(p)
+        out.append(c)
+    return out
+
+
+def mg_eval(ck, cases, root):
+    """run the cases (JIT on / off in separate worker pools); returns per case the per-use observables"""
+    obs = [None] * len(cases)
+    for jit in (True, False):
+        ids = [i for i, c in enumerate(cases) if bool(c["jit"]) == jit]
+        if not ids:
+            continue
+        units = [mg_materialize(cases[i], root, "g%d" % i) for i in ids]
+        res = ck.eval_cases(units, batch=6, timeout_per_batch=300, fresh=True,
+                            env=None if jit else {"STEEL_JIT": "false"})
+        for i, r in zip(ids, res):
+            obs[i] = mg_observe(cases[i], r)
+    return obs
+
+
+def mg_run(ck, facts, escalate):
+    """the family: corpus + sampled (quick) or full (thorough / escalated) matrix.  Returns number of failing inputs."""
+    import shutil
+    root = os.path.join(ck.work, "modgraph")
+    shutil.rmtree(root, ignore_errors=True)
+    quick = ck.tier == "quick"
+    cases = mg_load_corpus()
+    have = {(c["level"], c["require_form"], c["context"], c["layout"], c["jit"]) for c in cases}
+    if escalate:
+        combos = mg_matrix(jits=(True,)) if quick else mg_matrix()
+    elif quick:
+        allc = mg_matrix()
+        combos = ck.rng.sample(allc, 120)
+    else:
+        combos = mg_matrix()
+    for (level, rf, ctx, layout, jit) in combos:
+        if (level, rf, ctx, layout, jit) in have:
+            continue
+        rf2 = "plain" if level == 2 else ck.rng.choice(MG_REQUIRE_FORMS)
+        mp = ck.rng.choice(["for-syntax", "for-syntax", "atom"])
+        cases.append(mg_case(level, rf, ctx, layout, jit, rf2, mp))
+    ck.log("module graphs: %d programs (%d from the corpus)%s" % (
+        len(cases), len([c for c in cases if c.get("corpus")]), ", escalated to the whole matrix" if escalate else ""))
+    obs = mg_eval(ck, cases, os.path.join(root, "run"))
+    hist = ck.cov.setdefault("outcome_histogram", {})
+    seen = set()
+    fails = []
+    for i, c in enumerate(cases):
+        for u, got in zip(c["uses"], obs[i]):
+            ck.cov["evaluations"] += 1
+            key = ("module_graph", c["level"], c["require_form"], c["require_form2"], u["provide_form"], u["ident_kind"],
+                   c["context"], c["layout"], c["jit"], c["macro_provide"])
+            seen.add(key)
+            if got == u["expected"]:
+                bump(hist, "module_graph:definition-site")
+            else:
+                fails.append((i, u, got))
+    # failing uses: unit-level failures of the same-unit layout are re-run one use per program; every failing use is
+    # reported as the reduced program (one macro use), which is what the replay runs
+    nfail = 0
+    singles, owners = [], []
+    cap = 60 if quick else 400      # reduced programs that are run to confirm (25 violations are reported at most)
+    unresolved = 0
+    for i, u, got in fails:
+        c = cases[i]
+        d = mg_desc(c, u, got)
+        if ck.classify(d) is None or got.startswith(("UNIT-", "SETUP-")):
+            if len(singles) < cap:
+                singles.append(mg_single(c, u))
+                owners.append((i, u, got))
+            elif got.startswith(("UNIT-", "SETUP-")):
+                unresolved += 1
+    sobs = mg_eval(ck, singles, os.path.join(root, "single")) if singles else []
+    confirmed = {}
+    for (i, u, got), s, o in zip(owners, singles, sobs):
+        confirmed[(i, u["macro"])] = o[0]
+    for i, u, got in fails:
+        c = cases[i]
+        g2 = confirmed.get((i, u["macro"]), got)
+        if (i, u["macro"]) not in confirmed and got.startswith(("UNIT-", "SETUP-")) and ck.classify(mg_desc(c, u, got)) is None:
+            bump(hist, "module_graph:unit-failed-not-rerun")    # beyond the cap: the reported ones carry the replay
+            continue
+        if g2 == u["expected"] and got.startswith(("UNIT-", "SETUP-")):
+            bump(hist, "module_graph:definition-site")      # only a sibling use of the same unit failed
+            continue
+        d = mg_desc(c, u, g2)
+        if g2 == u["expected"]:
+            d["impl"] = got
+            d["note"] = "fails only together with the other uses of the generated program"
+            d.update({k: c[k] for k in ("units", "files")})
+        bump(hist, "module_graph:" + ("error:" + g2.split(":")[1].split(" ")[0] if ":" in g2 and g2.split(":")[0].endswith("E") else "other-binding"))
+        nfail += 1
+        fid = ck.failing_input(
+            "module graph (level %d, A requires B by %s, B provides by %s, template identifier: %s, use context %s, %s, JIT %s): "
+            "%s gives %s, definition-site meaning %s" % (
+                c["level"], c["require_form"], u["provide_form"], u["ident_kind"], c["context"], c["layout"],
+                "on" if c["jit"] else "off", u["src"], g2, u["expected"]), d, tag="modgraph")
+        if fid:
+            bump(hist, "module_graph:known:" + fid)
+    for c in cases[:2] + cases[len(cases) // 2:len(cases) // 2 + 1]:
+        ck.sample({k: c[k] for k in ("family", "level", "require_form", "context", "layout", "jit", "units")}
+                  | {"files": sorted(c["files"]), "uses": len(c["uses"])}, cap=9)
+    ck.log("module graphs: %d macro uses, %d not the definition-site meaning" % (sum(len(c["uses"]) for c in cases), nfail))
+    ck.cov["module_graph"] = {
+        "cases": len(cases), "corpus_cases": len([c for c in cases if c.get("corpus")]),
+        "uses": sum(len(c["uses"]) for c in cases), "failing_uses": nfail, "escalated": bool(escalate),
+        "reduced_programs_rerun": len(singles), "unit_failures_not_rerun": unresolved,
+        "provide_forms_generated": MG_PROVIDE_FORMS, "require_forms_generated": MG_REQUIRE_FORMS,
+        "contexts": MG_CONTEXTS, "layouts": MG_LAYOUTS,
+        "enumerated_from_modules_rs": facts, "uncovered_forms": mg_uncovered(facts) if facts else ["(enumeration failed)"],
+        "combinations_total": len(mg_matrix()), "distinct_combinations_run": len(seen)}
+    return nfail, seen
